@@ -12,7 +12,7 @@ MC = {"quick": [dict(family="stv", max_ballots=2, max_w=1)],
 
 def stv_config(rng, nc, rules=("STV", "STV", "STV", "SequentialRCV", "IRV")):
     r = rng.choice(rules)
-    x = "full" if r == "SequentialRCV" else ("fractional" if r == "IRV" else rng.choice(["fractional", "fractional", "random"]))
+    x = "full" if r == "SequentialRCV" else ("fractional" if r == "IRV" else rng.choice(["fractional", "fractional", "random", "full"]))
     return base_cfg(rule=r, m=1 if r == "IRV" else rng.randint(1, nc), quota=rng.choice(["droop", "droop", "hare"]),
                     simul=True if r == "IRV" else rng.random() < 0.5, xfer=x, tb=rng.choice(["none", "random", "borda", "first_place"]))
 
